@@ -630,9 +630,17 @@ def gen_program(r, model, default_ns, n, valid_only=False,
     for i in range(n):
         if with_export and r.random() < 0.06:
             ispec, c = g.new_inst(None)
+            spec = {'$inst': ispec, 'cdesc': c}
+            if r.random() < 0.3:
+                # an indication instance that carries a path
+                try:
+                    spec['path'] = mg.path_of(g.cmap, dict(
+                        ispec, cls=c['name']), r.choice(
+                            [None, model['namespaces'][0]]))
+                except KeyError:
+                    pass
             ops.append({'op': 'ExportIndication',
-                        'a': {'NewIndication': {'$inst': ispec,
-                                                'cdesc': c}}})
+                        'a': {'NewIndication': spec}})
         elif switch_default_ns and r.random() < 0.08:
             ns = r.choice(model['namespaces'] + ['root/cimv2', None])
             ops.append({'op': '$set_default_namespace', 'ns': ns})
